@@ -111,6 +111,7 @@ type OpRec struct {
 	CBytes     []byte
 	CErr       error
 	NetFault   string
+	cancel     context.CancelFunc
 }
 
 type SetRec struct {
@@ -122,11 +123,11 @@ type SetRec struct {
 }
 
 type Stats struct {
-	Decisions  int
-	SimNanos   int64
-	Fired      map[string]int
-	Probes     map[string]int
-	Seams      int
+	Decisions    int
+	SimNanos     int64
+	Fired        map[string]int
+	Probes       map[string]int
+	Seams        int
 	Inconclusive int
 }
 
@@ -139,22 +140,22 @@ type parkedTask struct {
 }
 
 type Engine struct {
-	plan *Plan
-	W    *World
-	wit  *witness.Witness
-	seamP persistence.LogStatePersistence
-	inner persistence.LogStatePersistence
-	side  persistence.LogStatePersistence
-	db    *sql.DB
-	sideDB *sql.DB
-	dir   string
+	plan       *Plan
+	W          *World
+	wit        *witness.Witness
+	seamP      persistence.LogStatePersistence
+	inner      persistence.LogStatePersistence
+	side       persistence.LogStatePersistence
+	db         *sql.DB
+	sideDB     *sql.DB
+	dir        string
 	sequential bool
-	aborting atomic.Bool
-	seamsOn  atomic.Bool
-	vfsKind  string
-	net      *SimNet
-	hclient  *http.Client
-	wclient  whttp.Witness
+	aborting   atomic.Bool
+	seamsOn    atomic.Bool
+	vfsKind    string
+	net        *SimNet
+	hclient    *http.Client
+	wclient    whttp.Witness
 
 	mu       sync.Mutex
 	names    map[int64]string
@@ -167,37 +168,39 @@ type Engine struct {
 	finished map[string]bool
 	open     map[*simW]bool
 
-	event   int
-	tapeIdx int
-	evlog   []string
-	hist    []*OpRec
-	sets    []SetRec
-	tracked map[string]Stored
-	stats   Stats
+	event      int
+	tapeIdx    int
+	evlog      []string
+	hist       []*OpRec
+	sets       []SetRec
+	tracked    map[string]Stored
+	stats      Stats
 	engineViol []Violation
-	infra   []string
-	start   time.Time
-	ctr0    map[string]float64
-	CtrDelta map[string]float64
-	prio    []int
+	infra      []string
+	start      time.Time
+	ctr0       map[string]float64
+	CtrDelta   map[string]float64
+	prio       []int
 }
 
 // Result of one execution.
 type RunResult struct {
-	Plan    *Plan
-	W       *World
-	Hist    []*OpRec
-	Sets    []SetRec
-	EvLog   []string
-	Stats   Stats
-	Viol    []Violation // engine-level findings: wedge, panic
-	Infra   []string    // harness trouble (exit 2)
-	Final   map[string]Stored
+	Plan      *Plan
+	W         *World
+	Hist      []*OpRec
+	Sets      []SetRec
+	EvLog     []string
+	Stats     Stats
+	Viol      []Violation // engine-level findings: wedge, panic
+	Infra     []string    // harness trouble (exit 2)
+	Final     map[string]Stored
 	FinalSnap *Snapshot
-	CtrDelta map[string]float64
+	CtrDelta  map[string]float64
 	SchedHash string
 	InUse     int
 	SeedSnap  *Snapshot
+	Completed bool // the run reached its end inside the bubble
+	Hung      bool // the run did not finish within hangLimit of wall-clock time
 }
 
 func (e *Engine) taskName() string {
@@ -236,6 +239,15 @@ func (e *Engine) seam(op, id string) string {
 	key := base + "#" + strconv.Itoa(n)
 	kind := e.faults[key]
 	e.stats.Seams++
+	if kind == "cancelctx" {
+		// not a storage fault: the caller's context ends while the update is at this storage call
+		if r := e.cur[name]; r != nil && r.cancel != nil {
+			r.cancel()
+			r.Fired = append(r.Fired, key+"=cancelctx")
+			e.stats.Fired["context_cancelled_at/"+op]++
+		}
+		kind = ""
+	}
 	if tf, ok := e.plan.Cfg.Extra["tail_from"]; ok && kind != "" {
 		if r := e.cur[name]; r != nil && int64(r.Idx) >= tf {
 			kind = "" // the tail of a fault plan is fault-free by definition
@@ -250,7 +262,7 @@ func (e *Engine) seam(op, id string) string {
 	if kind != "" {
 		e.stats.Fired[op+"/"+kind]++
 	}
-	if e.sequential || (e.plan.Cfg.Seam == "driver" && !strings.HasPrefix(op, "drv.")) {
+	if e.sequential || name == "anon" || (e.plan.Cfg.Seam == "driver" && !strings.HasPrefix(op, "drv.")) {
 		e.mu.Unlock()
 		return kind
 	}
@@ -603,10 +615,18 @@ func (e *Engine) execOp(idx int, task string, invokeEvent int) {
 		if tf, ok := e.plan.Cfg.Extra["tail_from"]; ok && e.vfsKind != "" && int64(idx) >= tf {
 			VFSSetFail(-1, -1, 0)
 		}
+		uctx, ucancel := context.WithCancel(ctx)
+		e.mu.Lock()
+		rec.cancel = ucancel
+		e.mu.Unlock()
 		rec.TInvoke = time.Now()
-		rec.Out, rec.Err = e.wit.Update(ctx, req.LogID, req.Old, req.CP, req.Proof)
+		rec.Out, rec.Err = e.wit.Update(uctx, req.LogID, req.Old, req.CP, req.Proof)
 		rec.TReturn = time.Now()
 		rec.Class = classify(rec.Err)
+		ucancel()
+		if e.sequential {
+			synctest.Wait() // anything the update left running in the background gets to finish before the store is looked at
+		}
 		if e.vfsKind != "" {
 			if n := VFSFired(); n > 0 {
 				e.mu.Lock()
@@ -975,13 +995,43 @@ func (e *Engine) runSequential() {
 	}
 }
 
+// hangLimit is the wall-clock time one execution may take before it is declared hung. Ordinary executions
+// take milliseconds; inside a bubble every sleep and timeout is simulated, so only a goroutine blocked on
+// something that is neither a seam nor the fake clock (a leaked lock, say) or a CPU spin can exhaust it.
+const hangLimit = 20 * time.Second
+
 // Execute runs one plan in a fresh bubble and returns the recorded history.
-func Execute(t *testing.T, plan *Plan) (res *RunResult) {
+func Execute(t *testing.T, plan *Plan) *RunResult {
+	done := make(chan *RunResult, 1)
+	go func() { done <- executeInBubble(t, plan) }()
+	select {
+	case r := <-done:
+		return r
+	case <-time.After(hangLimit):
+		return &RunResult{Plan: plan, W: NewWorld(plan), Stats: newStats(), Hung: true, Viol: []Violation{{Class: "wedge", Sig: "wedge/hard_hang",
+			Detail: fmt.Sprintf("the execution did not finish within %v of wall-clock time: a task is blocked on something that is neither a storage call nor the (simulated) clock - e.g. a lock that is never released - or spins", hangLimit)}}}
+	}
+}
+
+func executeInBubble(t *testing.T, plan *Plan) (res *RunResult) {
 	res = &RunResult{Plan: plan}
 	defer func() {
 		if r := recover(); r != nil {
 			// synctest reports goroutines left blocked when the bubble ends
-			res.Infra = append(res.Infra, fmt.Sprintf("bubble ended abnormally: %v", r))
+			if res.Completed {
+				wedged := false
+				for _, v := range res.Viol {
+					if v.Class == "wedge" {
+						wedged = true
+					}
+				}
+				if !wedged {
+					res.Viol = append(res.Viol, Violation{Class: "wedge", Sig: "wedge/blocked_goroutines_at_end",
+						Detail: fmt.Sprintf("when the run ended, goroutines started by the code under test were still blocked for good (%v) - typically database/sql's watcher of a transaction that was neither committed nor rolled back", r)})
+				}
+			} else {
+				res.Infra = append(res.Infra, fmt.Sprintf("bubble ended abnormally: %v", r))
+			}
 			dumpGoroutines()
 		}
 	}()
@@ -1080,6 +1130,7 @@ func Execute(t *testing.T, plan *Plan) (res *RunResult) {
 			h.Write([]byte{'\n'})
 		}
 		res.SchedHash = hex.EncodeToString(h.Sum(nil)[:8])
+		res.Completed = true
 	})
 	return res
 }
